@@ -642,6 +642,12 @@ func readSQLiteDatabaseHeader(r io.Reader) (hdr sqliteDatabaseHeader, data []byt
 		hdr.PageSize = 65536
 	}
 
+	// Any other value that is not a power of two of at least 512 is not a
+	// database SQLite would open.
+	if hdr.PageSize < 512 || hdr.PageSize&(hdr.PageSize-1) != 0 {
+		return hdr, b, errInvalidDatabaseHeader
+	}
+
 	return hdr, b, nil
 }
 
